@@ -616,7 +616,18 @@ func (e *Env) writeEvidence(id string, spec *PropSpec, results []instResult, see
 	sort.Strings(fl)
 	var overrides []string
 	if P != nil {
-		overrides = P.OverrideList
+		// only the redirections that are in force for the harness packages of this property (they are scoped per package)
+		inForce := map[string]bool{gosym.HaqqMod + "/zzverif": true}
+		for _, ir := range results {
+			inForce[gosym.HaqqMod+"/"+ir.Inst.Pkg] = true
+		}
+		for _, o := range P.OverrideList {
+			i := strings.Index(o, " -> ")
+			repl := o[i+4:]
+			if j := strings.LastIndex(repl, "."); j > 0 && inForce[repl[:j]] {
+				overrides = append(overrides, o)
+			}
+		}
 	}
 	cov := map[string]interface{}{
 		"states":                        max(paths, 1),
